@@ -7,7 +7,7 @@
    instance; d_count = contribution to total_count, d_signals = the totals carried by the
    listener calls / status-condition triggers; elapsed_periods D x = number of full
    periods D that have (strictly) elapsed in a silence of length x. *)
-From DustDDS Require Import Base.Machine Sched.DeadlineModel Sched.DeadlineProofs.
+From DustDDS Require Import Base.Machine Time.TimeModel Time.TimeProofs Sched.WorkerModel Sched.DeadlineModel Sched.DeadlineProofs.
 Open Scope Z_scope.
 
 (* writer: with at least one worker iteration per period (dense), after any silence the count
@@ -61,6 +61,19 @@ Theorem C30_reader_count_eq_elapsed_periods_refuted :
     d_count (rrun D (map Wake ws) (dinit t0)) = 3 /\ elapsed_periods D (last ws t0 - t0) = 2.
 Proof. exact reader_count_eq_elapsed_periods_refuted. Qed.
 
+(* the per-instance rules in ns are the ones of the (sec, nanosec) worker model that is tied
+   to the code (Sched/WorkerModel.v), away from the i32 clamp of the seconds *)
+Theorem C30_check_inst_refines_wstep :
+  forall now dl t key, small now -> small t -> small dl ->
+    let '(i', n) := check_inst now dl (mkSI key (Some t)) in
+    let s' := wstep (nanos dl) (mkD (nanos t) 0 []) (Wake (nanos now)) in
+    option_map nanos (si_last i') = Some (d_t s') /\ n = d_count s'.
+Proof. exact check_inst_refines_wstep. Qed.
+Theorem C30_reader_overdue_refines_rstep :
+  forall now dl last, small now -> small last -> small dl ->
+    dur_ltb dl (time_sub now last) = (nanos dl <? nanos now - nanos last).
+Proof. exact reader_overdue_refines_rstep. Qed.
+
 (* non-vacuity: a dense wake sequence over 3.3 periods gives 3 writer misses; a 50 ms reader
    deadline with one iteration per 50 ms is outside the class *)
 Example C30_nonvacuous :
@@ -79,3 +92,5 @@ Print Assumptions C30_each_increase_signalled.
 Print Assumptions C30_reader_count_eq_overdue_wakes.
 Print Assumptions C30_reader_count_eq_elapsed_periods_unless_known.
 Print Assumptions C30_reader_count_eq_elapsed_periods_refuted.
+Print Assumptions C30_check_inst_refines_wstep.
+Print Assumptions C30_reader_overdue_refines_rstep.
